@@ -1112,7 +1112,7 @@ K("dt.reseeded_index", ["C09"], DT, "dt_index.rs", "reseeded_index_contract", "K
 # command: they do not finish within 45 min here (or were never seen to finish).
 # They are listed in DESIGN.md 8.4 with what was observed.
 # ======================================================================================
-_MANUAL = {"construct.retry_gate", "flip.inserted_simplex_guard.kept", "flip.inserted_simplex_guard.removed", "tri.txn_attempt.ok", "tri.txn_attempt.dup", "tri.txn_attempt.degenerate", "tri.txn_attempt.structural", "tri.validation_report", "dt.level4_report", "order.seed", "facet_key.order_free", "dedup.n4",
+_MANUAL = {"construct.retry_gate", "tri.index_edges_canonical", "flip.inserted_simplex_guard.kept", "flip.inserted_simplex_guard.removed", "tri.txn_attempt.ok", "tri.txn_attempt.dup", "tri.txn_attempt.degenerate", "tri.txn_attempt.structural", "tri.validation_report", "dt.level4_report", "order.seed", "facet_key.order_free", "dedup.n4",
            "tds.remove_cells_bump.k0", "tds.remove_cells_bump.k1", "tds.remove_cells_bump.k2",
            "tri.adjacent_cells.n2_nohint", "tri.adjacent_cells.n2_hint", "tri.adjacent_cells.n0_absent",
            "hull.stale.is_point_outside", "hull.stale.find_visible", "hull.stale.find_nearest", "hull.stale.facet_visible",
